@@ -203,23 +203,32 @@ async fn run_scenario(sc: &Value) -> Value {
         m.t0 = Instant::now();
     }
     let res: Result<(), String> = match sc["kind"].as_str().unwrap_or("") {
-        "query" => {
+        k @ ("query" | "query_iter") => {
             let mut q = Statement::new("UPDATE ks.t SET b = 1 WHERE a = 1");
             q.set_is_idempotent(idem);
             q.set_consistency(cl);
             if on_statement {
                 q.set_retry_policy(Some(policy.clone()));
             }
-            session.query_unpaged(q, ()).await.map(|_| ()).map_err(|e| e.to_string())
+            if k == "query" {
+                session.query_unpaged(q, ()).await.map(|_| ()).map_err(|e| e.to_string())
+            } else {
+                // the iterator API accepts any statement; creating the pager fetches the first page (with retries / speculation)
+                session.query_iter(q, ()).await.map(|_| ()).map_err(|e| e.to_string())
+            }
         }
-        "execute" => {
+        k @ ("execute" | "execute_iter") => {
             let mut p = prepared.clone();
             p.set_is_idempotent(idem);
             p.set_consistency(cl);
             if on_statement {
                 p.set_retry_policy(Some(policy.clone()));
             }
-            session.execute_unpaged(&p, (1, 1)).await.map(|_| ()).map_err(|e| e.to_string())
+            if k == "execute" {
+                session.execute_unpaged(&p, (1, 1)).await.map(|_| ()).map_err(|e| e.to_string())
+            } else {
+                session.execute_iter(p, (1, 1)).await.map(|_| ()).map_err(|e| e.to_string())
+            }
         }
         "batch" => {
             let mut b = Batch::new(BatchType::Logged);
